@@ -436,7 +436,15 @@ func ruleW(p *Program, r *Reporter) {
 	}
 	// client: reply variable type per monitor method in (*ovsdbClient).monitor
 	ruleWClientReply(p, r)
-	// W4 synchronous delivery
+}
+
+// ruleW4Standalone: synchronous delivery, registered as its own rule.
+func ruleW4Standalone(p *Program, r *Reporter) {
+	sends := serverSends(p)
+	if len(sends) < 3 {
+		r.Anchor("W4", "server notification senders")
+		return
+	}
 	ruleW4(p, r, sends)
 }
 
